@@ -58,7 +58,8 @@ var commentTexts = []string{EmptyComment, " caf\u00e9\u0301 \uFFFD \U0001F600\u0
 var commentTextsBq = func() []string {
 	var out []string
 	for _, c := range commentTexts {
-		if !strings.Contains(c, "`") {
+		// (nor may the comment end in a backslash there: it would escape the closing backquote)
+		if !strings.Contains(c, "`") && !strings.HasSuffix(c, `\`) {
 			out = append(out, c)
 		}
 	}
